@@ -981,6 +981,7 @@ func runC01(cfg Config) {
 			rep.Count(l2, r2.status == "ok", "n>1", "status:"+r2.status)
 		}
 	}
+	runC01Traces(cfg, rep, m, rng)
 	c01CLI(cfg, rep, rng)
 	rep.Write(cfg.Out)
 }
